@@ -280,7 +280,7 @@ def native_documents(repo, tier):
     if "error" in res or "results" not in res:
         return {"obligations": [], "undecided": [{"obligation": documents_oid(f), "why": "native scope could not run: " + str(res.get("error", res.get("note")))[:300]}
                                                  for f in DOC_FORMATS]}
-    bounds = {"pdf": "1..3 pages, blank / one text token each, any subset of pages unreadable; pages with identical content bytes that differ only in their /Resources (form XObject, font encoding)",
+    bounds = {"pdf": "1..3 pages, blank / one text token each, any subset of pages unreadable / without content; pages with identical content bytes that differ only in their /Resources (form XObject, font encoding)",
               "pptx": "0..3 slides x {text, empty, hidden}; 1..2 slides x 1..3 shapes over {title, ctrTitle, body, subTitle, text box}; parts stored in reverse order",
               "odp": "0..3 slides x {text, empty}; 1..2 slides x 1..3 paragraphs over {Title, TitleText, BodyText, other style, no style}; slides with a speaker-notes page (1..2 note paragraphs, first / last child)",
               "epub": "0..3 spine items x {text, empty, missing from the manifest}, linear=no items; 1..2 chapters x 2..3 blocks over {h1, p, li}",
